@@ -6,6 +6,7 @@ import (
 	"fmt"
 	"go/types"
 	"math/big"
+	"sort"
 	"strings"
 	"net/netip"
 	"regexp"
@@ -16,14 +17,95 @@ import (
 
 type accessRec struct {
 	Role  string
-	Obj   int
+	Loc   string
 	Write bool
 	Locks string
 	Where string
 }
 
-func (in *Interp) noteAccess(fr *frame, p *value, write bool)   {}
-func (in *Interp) noteMapAccess(fr *frame, m *smap, write bool) {}
+// ---- access log for the lock-discipline analysis (C11) ----
+
+type locInfo struct {
+	desc string
+	root int // allocation sequence number of the root object
+}
+
+func (in *Interp) trackAlloc(p *value, t types.Type) {
+	if !in.trackHeap {
+		return
+	}
+	in.allocSeq++
+	in.locs[p] = &locInfo{desc: fmt.Sprintf("obj%d(%s)", in.allocSeq, shortType(t)), root: in.allocSeq}
+}
+
+func shortType(t types.Type) string {
+	s := types.TypeString(t, func(p *types.Package) string { return p.Name() })
+	if len(s) > 60 {
+		s = s[:60]
+	}
+	return s
+}
+
+func (in *Interp) trackField(parent, child *value, name string) {
+	if !in.trackHeap {
+		return
+	}
+	if li := in.locs[parent]; li != nil {
+		if _, ok := in.locs[child]; !ok {
+			in.locs[child] = &locInfo{desc: li.desc + "." + name, root: li.root}
+		}
+	}
+}
+
+func (in *Interp) heldString(g *goroutine) string {
+	if g == nil {
+		g = in.cur
+	}
+	var ls []string
+	for l, mode := range g.held {
+		ls = append(ls, l.name+":"+mode)
+	}
+	sort.Strings(ls)
+	return strings.Join(ls, ",")
+}
+
+func (in *Interp) logAccess(fr *frame, desc string, root int, write bool) {
+	if !in.accessLog || in.role == "" || root > in.sharedSeq {
+		return
+	}
+	where := fr.fn.String()
+	if fr.cur != nil {
+		pos := in.prog.Fset.Position(fr.cur.Pos())
+		where += fmt.Sprintf(" (%s:%d)", filepathBase(pos.Filename), pos.Line)
+	}
+	key := in.role + "|" + desc + "|" + fmt.Sprint(write) + "|" + in.heldString(fr.g)
+	if _, ok := in.w.accesses[key]; !ok {
+		in.w.accesses[key] = &accessRec{Role: in.role, Loc: desc, Write: write, Locks: in.heldString(fr.g), Where: where}
+	}
+}
+
+func filepathBase(p string) string {
+	if i := strings.LastIndex(p, "/"); i >= 0 {
+		return p[i+1:]
+	}
+	return p
+}
+
+func (in *Interp) noteAccess(fr *frame, p *value, write bool) {
+	if !in.accessLog {
+		return
+	}
+	if li := in.locs[p]; li != nil {
+		in.logAccess(fr, li.desc, li.root, write)
+	}
+}
+
+func (in *Interp) noteMapAccess(fr *frame, m *smap, write bool) {
+	if !in.accessLog || m == nil || m.id == 0 {
+		return
+	}
+	in.logAccess(fr, fmt.Sprintf("map%d(%s)", m.id, shortType(m.t)), m.id, write)
+}
 
 func (in *Interp) sleep(g *goroutine) {
 	// time.Sleep is a scheduling point: let others run, then continue.
@@ -200,6 +282,22 @@ func vfIntrinsic(fn *ssa.Function, base string) extFn {
 	case "vfSched":
 		return func(fr *frame, a []value) value {
 			fr.in.schedBudget = int(fr.in.asInt64(a[0]))
+			return nil
+		}
+	case "vfTrackHeap":
+		return func(fr *frame, a []value) value {
+			fr.in.trackHeap = true
+			return nil
+		}
+	case "vfRole":
+		// vfRole(name): accesses to objects that existed before the first call are logged under this role
+		return func(fr *frame, a []value) value {
+			in := fr.in
+			if !in.accessLog {
+				in.accessLog = true
+				in.sharedSeq = in.allocSeq
+			}
+			in.role = concStr(in, a[0], "role")
 			return nil
 		}
 	case "vfSymbolic":
